@@ -26,7 +26,8 @@ def x25519_calls(ctx, n):
         # typed paths: public key of kb, shared secrets with `ub` as the peer's public key
         pk = ref.x25519(kb, to32(9)).hex()
         ss = [out.hex(), B(not zero), out.hex()]
-        exp = [pk] + ss + [pk] + ss + ss + [pk] + ss + [kb.hex(), kb.hex(), kb.hex(), pk]
+        # ... then the deprecated `new` constructors of the reusable and static types and the AsRef views
+        exp = [pk] + ss + [pk] + ss + ss + [pk] + ss + [kb.hex(), kb.hex(), kb.hex(), pk] + [pk, kb.hex(), kb.hex(), out.hex()]
         ctx.add('x.dh', kb.hex(), ub.hex(), expect=exp,
                 cls=['u:' + c, 'contributory:false' if zero else 'contributory:true'])
         # Montgomery point times clamped scalar == x25519
